@@ -1,6 +1,7 @@
 """A high level interface for controlling a SpiNNaker system."""
 
 import collections
+import collections.abc
 import functools
 import os
 import six
@@ -1550,7 +1551,7 @@ class MachineController(ContextMixin):
             an iterable of these, in which case the total count will be
             returned.
         """
-        if (isinstance(state, collections.Iterable) and
+        if (isinstance(state, collections.abc.Iterable) and
                 not isinstance(state, str)):
             # If the state is iterable then call for each state and return the
             # sum.
